@@ -176,7 +176,28 @@ def bounded(b):
                         bad_inv = "inverse map raised %s at t=%d" % (type(e).__name__, t)
                 if int(qdm(t)) != O.q_in_force(part, t) and bad_qd is None:
                     bad_qd = "quarter_duration_map(%d) = %r, in force %d" % (t, qdm(t), O.q_in_force(part, t))
+            # the same positions asked as a list, an integer array and numpy integer scalars: "at any time" does not depend on how the time is passed
+            bad_vec = None
+            import numpy as _np
+            for mname, mp, ref in (("quarter_duration_map", qdm, lambda t: O.q_in_force(part, t)), ("quarter_map", qm, lambda t: float(O.quarter_pos(part, t))),
+                                   ("beat_map", bm, lambda t: float(O.beat_pos(part, t, musical)))):
+                want_v = [ref(t) for t in pos]
+                for form, arg in (("list", list(pos)), ("int64 array", _np.array(pos, dtype=_np.int64)), ("int32 array", _np.array(pos, dtype=_np.int32))):
+                    try:
+                        got_v = [float(x) for x in _np.asarray(mp(arg)).ravel()]
+                    except Exception as e:
+                        bad_vec = bad_vec or "%s(%s) raised %s" % (mname, form, type(e).__name__)
+                        continue
+                    if len(got_v) != len(want_v) or any(abs(g - w) > 1e-9 * (1 + abs(w)) for g, w in zip(got_v, want_v)):
+                        k = next((i for i, (g, w) in enumerate(zip(got_v, want_v)) if abs(g - w) > 1e-9 * (1 + abs(w))), None)
+                        bad_vec = bad_vec or "%s(%s): %d values for %d positions%s" % (mname, form, len(got_v), len(want_v), "" if k is None else "; at t=%d it gives %r, exact value %r" % (pos[k], got_v[k], want_v[k]))
+                for t in part._quarter_times:
+                    if lo <= t <= hi:
+                        g = float(mp(_np.int64(t)))
+                        if abs(g - ref(t)) > 1e-9 * (1 + abs(ref(t))):
+                            bad_vec = bad_vec or "%s(np.int64(%d)) = %r, exact value %r" % (mname, t, g, ref(t))
             nontriv = len(part._quarter_times) > 1 or len(list(part.iter_all(__import__("partitura").score.TimeSignature))) > 1
+            b.case("maps/vector_and_numpy_scalar_queries_give_the_same_values", bad_vec is None, case, bad_vec or "", nontrivial=nontriv)
             b.case("maps/quarter_map_exact_with_pickup_origin", bad_q is None, case, bad_q or "", nontrivial=nontriv)
             b.case("maps/beat_map_exact_with_pickup_origin", bad_b is None, case, bad_b or "", nontrivial=nontriv)
             b.case("maps/non_decreasing_across_change_points", bad_mono is None, case, bad_mono or "", nontrivial=nontriv)
